@@ -148,12 +148,20 @@ func c39Judge(r0 *verifkit.Run, oc *opCase, rd *c39Rendered, meta metadata.Clust
 	if hist != nil && len(hist.Edits) > 0 {
 		r.tag = "after_spec_edit_"
 	}
+	if hist != nil && hist.Tag != "" {
+		r.tag = hist.Tag
+	}
 	replay := func(extra map[string]any) map[string]any {
 		m := opDescribe(oc)
 		m["metadata_via"] = via
 		if hist != nil && len(hist.Edits) > 0 {
 			m["first_published_spec"] = hist.Initial
 			m["edits_each_followed_by_a_publish"] = hist.Edits
+		}
+		if hist != nil && len(hist.Steps) > 0 {
+			m["first_published_spec"] = hist.Initial
+			m["history_since_the_first_publish"] = hist.Steps
+			m["partitions_stored_before_this_publish"] = hist.StoredBefore
 		}
 		var bs []string
 		for _, b := range meta.Brokers {
@@ -289,7 +297,17 @@ func c39Judge(r0 *verifkit.Run, oc *opCase, rd *c39Rendered, meta metadata.Clust
 			if gap {
 				r.Violation("partitions_not_numbered_0_to_n_minus_1", fmt.Sprintf("topic %q partitions are numbered %v", want.Name, nums), replay(nil))
 			} else if len(tp.Partitions) != n {
-				r.Violation("partition_count_differs_from_topic", fmt.Sprintf("topic %q declares %d partitions, metadata has %d", want.Name, n, len(tp.Partitions)), replay(nil))
+				// the statement fixes the numbering, not the count: where the snapshot key held MORE partitions
+				// for this topic than the resource declares right before this publish (a broker served
+				// CreatePartitions, or the resource was resized down) both the declared and the stored count
+				// are accepted - Kafka never shrinks a topic; everywhere else the count is the declared one
+				if m, ok := c39StoredMore(hist, want.Name, n); ok && len(tp.Partitions) == m {
+					r.Count("obs_published_the_larger_stored_partition_count", 1)
+				} else {
+					r.Violation("partition_count_differs_from_topic", fmt.Sprintf("topic %q declares %d partitions, metadata has %d", want.Name, n, len(tp.Partitions)), replay(nil))
+				}
+			} else if _, ok := c39StoredMore(hist, want.Name, n); ok {
+				r.Count("obs_published_the_declared_count_over_a_larger_stored_one", 1)
 			}
 			if n >= 2 {
 				multi = true
@@ -314,6 +332,19 @@ func c39Judge(r0 *verifkit.Run, oc *opCase, rd *c39Rendered, meta metadata.Clust
 type c39Hist struct {
 	Initial json.RawMessage // opDescribe of the spec of the first publish
 	Edits   []string        // the edits since, each followed by a publish
+	// set by the broker-writer histories only (c39_broker_test.go):
+	Tag          string         // class prefix of verdicts reached in this history ("" = after_spec_edit_)
+	Steps        []string       // everything that happened since the first publish: broker-side writes, resource edits, publishes
+	StoredBefore map[string]int // partitions each topic had under the snapshot key right before the publish being judged
+}
+
+// c39StoredMore: did the snapshot key hold more partitions for the topic than the n its resource declares, right before the publish being judged?
+func c39StoredMore(hist *c39Hist, topic string, n int) (int, bool) {
+	if hist == nil || hist.StoredBefore == nil {
+		return 0, false
+	}
+	m := hist.StoredBefore[topic]
+	return m, m > n
 }
 
 // c39Reporter prefixes violation classes; everything else is the Run's.
@@ -546,6 +577,7 @@ type c39Seq struct {
 	hist *c39Hist
 	rd   *c39Rendered // objects rendered for the spec published last
 	brk0 kafscalev1alpha1.BrokerSpec
+	last metadata.ClusterMetadata // the snapshot read back after the publish judged last
 }
 
 func c39PortStr(p *int32) string {
@@ -676,7 +708,8 @@ func (q *c39Seq) publishAndJudge(ctx context.Context, viaTopic *kafscalev1alpha1
 		q.t.Fatalf("get cluster: %v", err)
 	}
 	q.rd = c39Collect(ctx, q.t, q.c, &stored)
-	c39Judge(q.r, q.oc, q.rd, meta, fmt.Sprintf("%s after %d edit(s) -> etcd %s", via, len(q.hist.Edits), c39SnapshotKey), q.hist)
+	q.last = meta
+	c39Judge(q.r, q.oc, q.rd, meta, fmt.Sprintf("%s after %d edit(s) and history step(s) -> etcd %s", via, len(q.hist.Edits)+len(q.hist.Steps), c39SnapshotKey), q.hist)
 	q.r.Count("edit_publishes_judged", 1)
 	return true
 }
@@ -792,7 +825,7 @@ func (q *c39Seq) run(ctx context.Context, rng interface{ Intn(int) int }, n int)
 
 func TestVerifC39Publish(t *testing.T) {
 	r := verifkit.Start(t, "C39", "publish")
-	defer r.Finish("[full ClusterReconciler.Reconcile, then TopicReconciler.Reconcile, with an external-etcd spec against an embedded etcd; the metadata judged is the JSON read back from "+c39SnapshotKey+" after each; then 1-3 edits of the resources on the API server (only advertisedHost; only advertisedPort; both; replicas; replicas plus address; back to the first broker spec; a topic added; partitions of a topic grown; topic plus address - never a topic removal), each followed by the publish its controller would run (ClusterReconciler, or TopicReconciler for a topic edit, in a third of the steps a second publish through the TopicReconciler) on top of the snapshot already stored, and the snapshot read back is judged by the same oracle against the LATEST spec, topics and the objects rendered for them (classes prefixed after_spec_edit_); a scale-down-after-topic-removal probe is observation only (obs_*)] "+c39Rule, c39Assumptions...)
+	defer r.Finish("[full ClusterReconciler.Reconcile, then TopicReconciler.Reconcile, with an external-etcd spec against an embedded etcd; the metadata judged is the JSON read back from "+c39SnapshotKey+" after each; then 1-3 edits of the resources on the API server (only advertisedHost; only advertisedPort; both; replicas; replicas plus address; back to the first broker spec; a topic added; partitions of a topic grown; topic plus address - never a topic removal), each followed by the publish its controller would run (ClusterReconciler, or TopicReconciler for a topic edit, in a third of the steps a second publish through the TopicReconciler) on top of the snapshot already stored, and the snapshot read back is judged by the same oracle against the LATEST spec, topics and the objects rendered for them (classes prefixed after_spec_edit_); a scale-down-after-topic-removal probe is observation only (obs_*)] "+c39Rule+" ;; "+c39BrokerRule, c39Assumptions...)
 	opRegisterEnv(t)
 	opScratchTmp(t)
 	endpoints := testutil.StartEmbeddedEtcd(t)
@@ -899,6 +932,8 @@ func TestVerifC39Publish(t *testing.T) {
 			r.Sample(map[string]any{"case": opDescribe(oc), "snapshot": raw})
 		}
 	}
+	// second phase: histories in which the broker side writes the snapshot key between operator publishes
+	c39BrokerHistories(ctx, t, r, cli, scheme, endpoints)
 	r.Floor("published", int64(n*9/10))
 	r.Floor("published_via_topic_reconciler", int64(n/2))
 	r.Floor("partitions_checked", 50)
